@@ -369,7 +369,7 @@ def probe_names(label="TestClassDiagram"):
                  and not (c.IS_ENUM or c.IS_STRUCT or c.PURE_VIRTUAL_INTERFACE or c.AUTOGEN)]
     names += ["explicit-ctor:" + n for n in plainattr[:1]]
     names += ["empty-interface:" + c.NAME for c in cd.classes.values() if c.PURE_VIRTUAL_INTERFACE and c.OPERATIONS]
-    names += ["redeclare-renamed-params"]
+    names += ["redeclare-renamed-params", "nonconst-twin", "rename-to-interface-name"]
     names += ["long-member-names"]
     return names
 
@@ -435,6 +435,46 @@ def apply_probe(cd, probe):
             c.OPERATIONS.append(cp)
             touched.append(c.NAME)
         return sorted(set(touched))
+    if kind == "nonconst-twin":
+        # the realised interface's first operation is a const query; the realising class also declares a NON-const function of that name
+        # and parameter list (another function in C++): both must be there, the const one as the override
+        touched = []
+        for i in list(cd.inheritence.values()):
+            if not i.IS_REALIZATION or i.CLASS_TO_ID not in cd.classes or i.CLASS_FROM_ID not in cd.classes:
+                continue
+            c, itf = cd.classes[i.CLASS_TO_ID], cd.classes[i.CLASS_FROM_ID]
+            if not itf.PURE_VIRTUAL_INTERFACE or not itf.OPERATIONS or c.PURE_VIRTUAL_INTERFACE or c.AUTOGEN or c.IS_ENUM or c.IS_STRUCT:
+                continue
+            op = itf.OPERATIONS[0]
+            if op.IS_STATIC or any(o.NAME == op.NAME and len(o.PARAMETERS) == len(op.PARAMETERS) for o in c.OPERATIONS):
+                continue
+            op.IS_CONST = True
+            cp = copy.deepcopy(op)
+            cp.IS_CONST = False
+            cp.VIRTUAL = False
+            c.OPERATIONS.append(cp)
+            touched.append(c.NAME)
+        return sorted(set(touched))
+    if kind == "rename-to-interface-name":
+        # a class that realises an interface of ANOTHER package takes the interface's name (same name, different namespaces)
+        touched = []
+        for i in list(cd.inheritence.values()):
+            if not i.IS_REALIZATION or i.CLASS_TO_ID not in cd.classes or i.CLASS_FROM_ID not in cd.classes:
+                continue
+            c, itf = cd.classes[i.CLASS_TO_ID], cd.classes[i.CLASS_FROM_ID]
+            if c.NAMESPACE == itf.NAMESPACE or c.NAME == itf.NAME or not itf.PURE_VIRTUAL_INTERFACE or c.PURE_VIRTUAL_INTERFACE:
+                continue
+            if any(x.NAME == itf.NAME and x.NAMESPACE == c.NAMESPACE for x in cd.classes.values()):
+                continue
+            old = c.NAME
+            c.NAME = itf.NAME
+            for o in c.OPERATIONS:
+                if o.NAME.strip() == old.strip():
+                    o.NAME = itf.NAME
+            retarget_types(cd, c.NAMESPACE + "::" + old, c.NAMESPACE + "::" + itf.NAME)
+            touched.append(itf.NAME)
+            break
+        return touched
     if kind == "long-member-names":
         touched = []
         for c in cd.classes.values():
